@@ -1,5 +1,6 @@
 """C08 — EWA maps swath pixels exactly and averages them without inventing values."""
 import math
+import os
 import time
 from concurrent.futures import ThreadPoolExecutor
 
@@ -9,7 +10,8 @@ from pyproj import Proj
 from .common import fhex, ints
 
 PROP_FILE = "Properties/C08.v"
-RUN_FILES = ["Model/C08_run.v"]
+GEN = ["GenC08"]
+RUN_FILES = ["Model/C08_run.v", "Model/C08_rungen.v"]
 
 NAN = float("nan")
 INF = float("inf")
@@ -678,14 +680,53 @@ def shard(items, n):
     return [s for s in out if s]
 
 
+# ----------------------------------------------------------------------------------------------- compiled kernel
+def build_fornav(ctx):
+    """Out-of-tree g++ build of pyresample.ewa._fornav from the current _fornav.cpp (Cython output, Cython itself is not
+    installed) + _fornav_templates.cpp/.h, cached by content hash.  Returns the path of the module or None."""
+    import fcntl
+    import hashlib
+    import subprocess
+    import sysconfig
+    from .common import REPO, BUILD
+    src = [os.path.join(REPO, "pyresample", "ewa", f) for f in ("_fornav.cpp", "_fornav_templates.cpp", "_fornav_templates.h")]
+    if not os.path.exists(src[0]):
+        # _fornav.cpp is Cython output and not tracked by git: a scratch worktree has none; the one of /repo wraps the same .pyx
+        src[0] = "/repo/pyresample/ewa/_fornav.cpp"
+        if not os.path.exists(src[0]):
+            ctx.notes.append("no Cython-generated _fornav.cpp available: the shipped _fornav extension module is exercised as it is")
+            return None
+    try:
+        hsh = hashlib.sha1(b"".join(open(f, "rb").read() for f in src)).hexdigest()[:16]
+    except OSError as e:
+        ctx.broken.append(("build:_fornav", "cannot read the kernel sources: %s" % e))
+        return None
+    d = os.path.join(BUILD, "ext", "C08", hsh)
+    so = os.path.join(d, "_fornav" + sysconfig.get_config_var("EXT_SUFFIX"))
+    os.makedirs(d, exist_ok=True)
+    with open(os.path.join(BUILD, "ext", "C08", ".lock"), "w") as lk:
+        fcntl.flock(lk, fcntl.LOCK_EX)
+        if not os.path.exists(so):
+            cmd = ["timeout", "600", "g++", "-O2", "-fPIC", "-shared", "-std=c++11", "-w", "-DNPY_NO_DEPRECATED_API=NPY_1_7_API_VERSION",
+                   "-I" + sysconfig.get_paths()["include"], "-I" + np.get_include(), "-I" + os.path.dirname(src[2]), src[0], src[1], "-o", so + ".tmp"]
+            p = subprocess.run(cmd, capture_output=True, text=True)
+            if p.returncode != 0:
+                ctx.broken.append(("build:_fornav", "g++ cannot build the EWA kernel from the current sources: " + p.stderr[-500:]))
+                return None
+            os.replace(so + ".tmp", so)
+            ctx.notes.append("rebuilt pyresample.ewa._fornav from source (hash %s)" % hsh)
+    ctx.checker_cmds.append("g++ -O2 -shared _fornav.cpp _fornav_templates.cpp -> build/ext/C08/%s (pre-loaded as pyresample.ewa._fornav)" % hsh)
+    return so
+
+
 # ----------------------------------------------------------------------------------------------- run
-def run_impl(ctx, payload, nshards=10):
+def run_impl(ctx, payload, nshards=10, so=None):
     """Run the driver on interleaved shards of the case lists in parallel; results in the original order."""
     res = {k: [None] * len(payload[k]) for k in payload}
 
     def one(i):
         sub = {k: payload[k][i::nshards] for k in payload if payload[k][i::nshards]}
-        return i, (ctx.impl("c08", sub) if sub else {})
+        return i, (ctx.impl("c08", sub, extra_env={"C08_FORNAV_SO": so} if so else None) if sub else {})
     with ThreadPoolExecutor(max_workers=nshards) as ex:
         for i, outd in ex.map(one, range(nshards)):
             for k, outl in outd.items():
@@ -717,7 +758,8 @@ def run(ctx):
         c = {k: sc[k] for k in ("proj", "shape", "extent", "cls", "flipped", "lons", "lats")}
         c.update({"fill": H(NAN), "malformed": False, "from_scene": True})
         ll_cases.append(c)
-    obs = run_impl(ctx, {"ll2cr": ll_cases, "fornav": fn_cases, "scene": sc_cases, "wgrid": wg_cases})
+    so = build_fornav(ctx)
+    obs = run_impl(ctx, {"ll2cr": ll_cases, "fornav": fn_cases, "scene": sc_cases, "wgrid": wg_cases}, so=so)
     ctx.notes.append("implementation runs: %.1fs" % (time.time() - t0))
 
     texts = []
@@ -739,7 +781,8 @@ def run(ctx):
         if "error" not in o:
             L.append(coq_ll2cr(case, o))
     for i, sh in enumerate(shard(L, ctx.n(4, 12))):
-        texts.append(("c08_ll2cr_%d" % i, HDR + "Definition cases : list ll_case := [%s].\nEval vm_compute in (bad chk_ll2cr cases).\n" % ";\n".join(sh), sh, "ll2cr"))
+        texts.append(("c08_ll2cr_%d" % i, HDR + "From PR Require Import Model.C08_rungen.\nDefinition cases : list ll_case := [%s].\n"
+                      "Eval vm_compute in (bad (fun c => chk_ll2cr c && chk_ll2cr_gen c) cases).\n" % ";\n".join(sh), sh, "ll2cr"))
 
     # ---- fornav (synthetic) and scenes
     F = []
@@ -862,7 +905,8 @@ def replay(ctx, data):
     if not case:
         return False
     op = {"ll2cr": "ll2cr", "fornav": "fornav", "scene": "scene"}[kind]
-    o = ctx.impl("c08", {op: [case]})[op][0]
+    so = build_fornav(ctx)
+    o = ctx.impl("c08", {op: [case]}, extra_env={"C08_FORNAV_SO": so} if so else None)[op][0]
     if kind == "ll2cr":
         fails = judge_ll2cr(case, o)
     elif kind == "fornav":
